@@ -1,4 +1,5 @@
 import RulioProofs.Cache
+import RulioProofs.CacheInst
 
 /-! # C17 — the location cache is transparent (property theorems only)
 
@@ -133,3 +134,112 @@ example : ∀ x ∈ ([(.create "x", 0, 1), (.api "x" (.add 5), 2, 3), (.api "x" 
 example : windowFree { ttl := .never, checkExistence := false } (cinit [] (List.replicate 3 (Req.peek "y")) : CSt toySem)
     [(1,0),(1,1),(0,2),(2,3),(1,4),(0,5),(2,6),(1,7)] = true := by
   decide
+
+/-! ## C17 ∘ C06: the hypothesis `ReloadOK` discharged for the concrete State model
+
+`RulioProofs/CacheInst.lean` instantiates the abstract location semantics with the State model of
+`RulioModel/State.lean` (`stSem k`: instances `St`, storage = stored documents + id generator, `load` = `St.reload`
+of a new instance over the storage, `exec` = `St.stepOp` with the full answer, `created` / `mark` = the `!.createdAt`
+property fact) and proves `ReloadOK` from the reload theorems of C06:
+* linear kind — in full (`stSem_reloadOK_linear`, from `reload_linear_identity`);
+* indexed kind — on the fragment `idxFrag q` (`idxSem_reloadOK_partial`, from `reload_in_step` /
+  `in_step_observations`); for the unrestricted indexed semantics `ReloadOK` is *false*
+  (`stSem_indexed_not_reloadOK`: expiry). -/
+
+/-- **Sequential transparency, linear State (no abstract hypothesis).**  For the linear `State` implementation, every
+cache configuration, every start-up storage (any stored documents, any state of the id generator), every history of
+`Add` / `Rem` / `Get` / `Search` / `FindRules` / `Clear` requests (each with its own Location clock, expiry and
+cascades included), `CreateLocation` and `GetLocation`, and every two sequences of cache clock readings: the answers
+through the System — full answers: ids, flags, facts, search results, rules, in order — equal the answers of
+operating each location directly (loaded once, never reloaded).  `ReloadOK` is `stSem_reloadOK_linear`, proved from
+C06 (`reload_linear_identity`).  `hok` is the request condition of `cache_transparent_seq` (it is vacuous when
+existence checking is off). -/
+theorem cache_transparent_seq_state (tm : Int) (stamp : String) (cfg : Cfg) (s0 : List (String × StStore))
+    (h1 h2 : List (Req (stSem .linear tm stamp) × Int × Int)) (hs : SameReqs h1 h2)
+    (hok : ∀ x ∈ h1, ReqOK (stSem .linear tm stamp) cfg.checkExistence x.1) :
+    (runE cfg { store := s0 } h1).2 = (runD cfg.checkExistence { base := s0 } h2).2 :=
+  cache_transparent_seq (stSem_reloadOK_linear tm stamp) cfg s0 h1 h2 hs hok
+
+/-- **TTL independence, linear State (no abstract hypothesis).**  Two Systems over linear States that differ only in
+TTL / CachePending and in what their clocks show return the same answers for the same request history. -/
+theorem cache_ttl_independent_state (tm : Int) (stamp : String) (cfg1 cfg2 : Cfg)
+    (hc : cfg1.checkExistence = cfg2.checkExistence) (s0 : List (String × StStore))
+    (h1 h2 : List (Req (stSem .linear tm stamp) × Int × Int)) (hs : SameReqs h1 h2)
+    (hok : ∀ x ∈ h1, ReqOK (stSem .linear tm stamp) cfg1.checkExistence x.1)
+    (hok2 : ∀ x ∈ h2, ReqOK (stSem .linear tm stamp) cfg2.checkExistence x.1) :
+    (runE cfg1 { store := s0 } h1).2 = (runE cfg2 { store := s0 } h2).2 :=
+  cache_ttl_independent (stSem_reloadOK_linear tm stamp) cfg1 cfg2 hc s0 h1 h2 hs hok hok2
+
+/-- **Sequential transparency, indexed State, on the fragment of C06 (partial).**  For the indexed `State`
+implementation restricted to `idxSem q`: start-up storages written by such States (`IdxS q`), requests whose
+operations lie in `idxFrag q` — `Add` of facts without `ttl` / `expires` whose rule (if any) can leave the pattern
+index (and, when `q`, ground data), `Rem` of non-variable ids (cascades included), `Get`, `Clear`, and when `q`
+`Search` with linear `patOK` patterns — plus `CreateLocation` / `GetLocation`: the answers through the System equal
+the answers of direct operation; search answers are compared as multisets of (id, bindings).
+Full statement (all `ROp`s, all storages): FALSE as an instance of `cache_transparent_seq`, because its hypothesis
+`ReloadOK` fails for the unrestricted indexed semantics (`stSem_indexed_not_reloadOK`); what is missing is listed at
+`idxSem_reloadOK_partial` (expiry: lazily purged documents; `Rem` with rules that cannot be un-indexed; `Search`
+outside the C02/C05 fragment; `FindRules`). -/
+theorem cache_transparent_seq_state_partial (q : Bool) (tm : Int) (stamp : String)
+    (hm : idxFrag q (.add "" (markerFact stamp) tm) = true) (cfg : Cfg) (s0 : List (String × IdxS q))
+    (h1 h2 : List (Req (idxSem q tm stamp hm) × Int × Int)) (hs : SameReqs h1 h2)
+    (hok : ∀ x ∈ h1, ReqOK (idxSem q tm stamp hm) cfg.checkExistence x.1) :
+    (runE cfg { store := s0 } h1).2 = (runD cfg.checkExistence { base := s0 } h2).2 :=
+  cache_transparent_seq (idxSem_reloadOK_partial q tm stamp hm) cfg s0 h1 h2 hs hok
+
+/-- **TTL independence, indexed State, on the fragment of C06 (partial)**: same restriction as
+`cache_transparent_seq_state_partial`. -/
+theorem cache_ttl_independent_state_partial (q : Bool) (tm : Int) (stamp : String)
+    (hm : idxFrag q (.add "" (markerFact stamp) tm) = true) (cfg1 cfg2 : Cfg)
+    (hc : cfg1.checkExistence = cfg2.checkExistence) (s0 : List (String × IdxS q))
+    (h1 h2 : List (Req (idxSem q tm stamp hm) × Int × Int)) (hs : SameReqs h1 h2)
+    (hok : ∀ x ∈ h1, ReqOK (idxSem q tm stamp hm) cfg1.checkExistence x.1)
+    (hok2 : ∀ x ∈ h2, ReqOK (idxSem q tm stamp hm) cfg2.checkExistence x.1) :
+    (runE cfg1 { store := s0 } h1).2 = (runE cfg2 { store := s0 } h2).2 :=
+  cache_ttl_independent (idxSem_reloadOK_partial q tm stamp hm) cfg1 cfg2 hc s0 h1 h2 hs hok hok2
+
+/-- **the restriction of the indexed kind is necessary**: no relation `R` makes `ReloadOK` true for the unrestricted
+indexed State — a document that expires is dropped (and erased from storage) by a `Load` after its expiry, kept by an
+instance loaded before it until something touches it, so two instances over one storage write different storages
+after the same `Get` (monotone clocks: loads at 0 s and 10 s, `Get "y"` at 10 s, `x` expires at 5 s). -/
+theorem reloadOK_indexed_unrestricted_false (tm : Int) (stamp : String) :
+    ReloadOK (stSem .indexed tm stamp) → False :=
+  stSem_indexed_not_reloadOK tm stamp
+
+/-- `cache_transparent_seq_state` applies to `exHistLin` (locations "home" and "work": create, add with ttl, add with
+a generated id, add of a rule, searches before and after the expiry, a rule lookup, a removal, a get, an unchecked
+open, a clear), for every TTL, any CachePending, any start-up storage, and the direct run may read other clocks -/
+example (ttl : TTL) (cp : Bool) (s0 : List (String × StStore)) :
+    (runE { ttl := ttl, checkExistence := false, cachePending := cp } { store := s0 } exHistLin).2 =
+      (runD false { base := s0 } (reclock (· * 7 + 1000) exHistLin)).2 :=
+  cache_transparent_seq_state 0 exStamp _ s0 _ _ (sameReqs_reclock _ _) (fun x _ => reqOK_unchecked _ x.1)
+
+/-- … the answers of its first five requests through the System (the matcher is defined by well-founded recursion, so
+requests that reach it are not evaluated by `decide`): created, four ids acknowledged -/
+example : (runE { ttl := .finite 5, checkExistence := false } {} (exHistLin.take 5)).2.map stOutCode =
+    [101, 1, 1, 1, 1] := by
+  decide +kernel
+
+/-- with existence checking on: `exHistChk` (an add before the location exists is NotFound, creates, adds that keep
+the marker, a location never created) meets `ReqOK`, so TTL never and TTL forever agree -/
+example : (runE { ttl := .never, checkExistence := true } {} exHistChk).2 =
+    (runE { ttl := .forever, checkExistence := true } {} exHistChk).2 :=
+  cache_ttl_independent_state 0 exStamp { ttl := .never, checkExistence := true } { ttl := .forever, checkExistence := true }
+    rfl [] _ _ (sameReqs_refl _) exHistChk_ok exHistChk_ok
+
+example : (runE { ttl := .never, checkExistence := true } {} exHistChk).2.map stOutCode = [100, 101, 1, 100, 102, 1] := by
+  decide +kernel
+
+/-- `cache_transparent_seq_state_partial` applies to `exHistIdx` (indexed kind, fragment with queries; "home" and
+"work": create, add, overwrite — which leaves stale ids in the live term index —, a dependent fact, searches, a
+removal with its cascade, a get, an unchecked open, a clear), for every TTL and any start-up storage of the fragment -/
+example (ttl : TTL) (cp : Bool) (s0 : List (String × IdxS true)) :
+    (runE { ttl := ttl, checkExistence := false, cachePending := cp } { store := s0 } exHistIdx).2 =
+      (runD false { base := s0 } (reclock (· + 5) exHistIdx)).2 :=
+  cache_transparent_seq_state_partial true 0 exStamp exMarkOK _ s0 _ _ (sameReqs_reclock _ _)
+    (fun x _ => reqOK_unchecked _ x.1)
+
+/-- … the answers of its first five requests: created, the adds (one overwriting) and the dependent acknowledged -/
+example : (runE { ttl := .never, checkExistence := false } {} (exHistIdx.take 5)).2.map idxOutCode =
+    [101, 1, 1, 1, 1] := by
+  decide +kernel
